@@ -42,6 +42,17 @@ def job_matrix(job):
             continue
         out['configs'] += 1
         N = 2 ** alg.d
+        # another algebra with the same numbers (p, q, r) of positive / negative / null generators in a different order asks for
+        # its matrices first, in the same process: the matrices depend on the order of the signature, not only on the counts
+        if alg.d >= 2 and not (cfg.get('basis') or cfg.get('name')):
+            try:
+                from kingdon import Algebra as _Alg
+                sig_ = [int(x) for x in alg.signature]
+                for rot in (sig_[1:] + sig_[:1], sig_[::-1]):
+                    if rot != sig_:
+                        _Alg(signature=rot, start_index=alg.start_index).matrix_basis
+            except Exception:
+                pass
         canon = list(alg.canon2bin.values())
         idx = {k: i for i, k in enumerate(canon)}
         MB = [np.array(m, dtype=float) for m in alg.matrix_basis]
